@@ -333,6 +333,8 @@ func c04Child(c *mon.Child) {
 				s := &scanner.Scanner{}
 				s.Init(strings.NewReader(in))
 				s.Error = func(*scanner.Scanner, string) {}
+				// a scanner that was used before keeps its old Filename through Init; the name given to LexWithScanner counts
+				s.Filename = "stale-name.txt"
 				lx = lexer.LexWithScanner(fname, s)
 			}
 			if lerr == nil {
